@@ -288,7 +288,9 @@ def spec_first_match_closure(ck):
         ex.prove(s, 'C02/first-match/filter-evaluated-exactly-once', [e[0] for e in s.trace].count('evaluate') == 1)
         ex.prove(s, 'C02/first-match/selection-depends-on-the-filter-only', 'has_feature' not in [e[0] for e in s.trace])
         inner = r.variants.get(1, {}).get(0)
-        if inner is not None:
+        if isinstance(inner, Ref):
+            inner = ex.deref(s, inner)
+        if isinstance(inner, Agg) and inner.discr is not None:
             di = BV(inner.discr, 64) if isinstance(inner.discr, int) else inner.discr
             ex.prove(s, 'C02/first-match/selected-target-is-the-rules-target', z3.Implies(verdict, di == tgt))
     ck.absorb(ex, 'process_request first-match closure', finals)
